@@ -124,7 +124,7 @@ func Generate(r *rand.Rand, profile string, concurrent bool, avoid map[string]bo
 			o.K = OpUnblock
 		case x < 96:
 			o.K = OpUnary
-			o.A = r.IntN(8)
+			o.A = r.IntN(8) + 8*r.IntN(3) // + how many call options (0, 1, 3)
 		default:
 			o.K = OpSteps
 			o.A = 1 + r.IntN(10)
@@ -624,7 +624,18 @@ func (s *sim) unary(variant int) {
 	if variant%2 == 1 {
 		wantErr = errors.New("invoker error")
 	}
-	opt := grpc.WaitForReady(variant >= 2)
+	// the call options are the head of an array the application owns (spare
+	// capacity behind them: an interceptor that appends writes into it)
+	nOpts := []int{1, 0, 3}[(variant/8)%3]
+	variant %= 8
+	var hdr metadata.MD
+	own := make([]grpc.CallOption, 3, 8)
+	own[0], own[1], own[2] = grpc.WaitForReady(variant >= 2), grpc.Header(&hdr), grpc.MaxCallRecvMsgSize(1<<20)
+	for i := 3; i < cap(own); i++ {
+		own = append(own, grpc.MaxCallSendMsgSize(100+i))
+	}
+	ownWant := append([]grpc.CallOption(nil), own...)
+	passed := own[:nOpts]
 	var got struct {
 		method     string
 		req, reply interface{}
@@ -651,7 +662,7 @@ func (s *sim) unary(variant int) {
 					}
 				}
 				return wantErr
-			}, opt)
+			}, passed...)
 		return err
 	})
 	s.k.Quiesce()
@@ -671,13 +682,26 @@ func (s *sim) unary(variant int) {
 		s.vio("C12", "unary-invoker-calls", "", fmt.Sprintf("invoker called %d times", got.called))
 	case got.method != "/svc/Unary" || got.req != interface{}(req) || got.reply != interface{}(reply) || got.cc != nil:
 		s.vio("C12", "unary-not-transparent", "args", fmt.Sprintf("invoker saw method=%q req=%p reply=%p", got.method, got.req, got.reply))
-	case len(got.opts) != 1:
-		s.vio("C12", "unary-not-transparent", "opts", fmt.Sprintf("invoker saw %d options, want 1", len(got.opts)))
+	case !sameOpts(got.opts, ownWant[:nOpts]):
+		s.vio("C12", "unary-not-transparent", "opts", fmt.Sprintf("invoker saw %d options %v, the caller passed %d: %v", len(got.opts), got.opts, nOpts, ownWant[:nOpts]))
 	case got.val != 42:
 		s.vio("C12", "unary-not-transparent", "ctx", "caller's context value not visible to the invoker")
 	case err != wantErr:
 		s.vio("C12", "unary-not-transparent", "err", fmt.Sprintf("returned %v, invoker returned %v", err, wantErr))
 	}
+}
+
+//go:norace
+func sameOpts(a, b []grpc.CallOption) bool {
+	if len(a) != len(b) {
+		return false
+	}
+	for i := range a {
+		if a[i] != b[i] {
+			return false
+		}
+	}
+	return true
 }
 
 // check evaluates the history oracles.
